@@ -1060,6 +1060,22 @@ class AEval(dtable.Eval):
                 if not out or out[-1] != x:
                     out.append(x)
             return out
+        if m == "dedup_by" and args:
+            out = []
+            for x in part:
+                if out and self._b(self.apply(args[0], [x, out[-1]])):
+                    continue        # `same_bucket(current, previous)`: the current element is removed
+                out.append(x)
+            return out
+        if m == "dedup_by_key" and args:
+            out, keys = [], []
+            for x in part:
+                kx = self.apply(args[0], [x])
+                if out and keys[-1] == kx:
+                    continue
+                out.append(x)
+                keys.append(kx)
+            return out
         if m == "truncate" and args and args[0][0] == "int":
             return part[:args[0][1]]
         if m == "swap" and len(args) == 2 and args[0][0] == "int" and args[1][0] == "int" and max(args[0][1], args[1][1]) < len(part):
@@ -1084,7 +1100,7 @@ class AEval(dtable.Eval):
         if m in ("peek", "peek_mut") and not e["args"] and is_node(rnode) and rnode["k"] == "Path" and rnode["path"] in env and env[rnode["path"]][0] == "list":
             lst = env[rnode["path"]][1]
             return C("Some", lst[0]) if lst else C("None")
-        if m in ("retain", "retain_mut", "sort", "sort_unstable", "sort_by", "sort_unstable_by", "sort_by_key", "sort_unstable_by_key", "sort_by_cached_key", "reverse", "dedup", "truncate", "swap", "rotate_left", "rotate_right"):
+        if m in ("retain", "retain_mut", "sort", "sort_unstable", "sort_by", "sort_unstable_by", "sort_by_key", "sort_unstable_by_key", "sort_by_cached_key", "reverse", "dedup", "dedup_by", "dedup_by_key", "truncate", "swap", "rotate_left", "rotate_right"):
             tgt, lo, hi = rnode, None, None
             while is_node(tgt) and tgt["k"] in ("Paren", "Ref", "Unary"):
                 tgt = tgt["expr"]
